@@ -2,7 +2,7 @@
 
     Statements only; proofs in [Farm/Rewards.v] (on top of the invariant of [Farm/Proofs.v]).
     [reachable s] as in C05: any history from any genesis with an empty farm account. *)
-From Irismod Require Import Farm.Model Farm.Check Farm.Proofs Farm.Rewards Farm.Refund Farm.Budget Farm.Sound Farm.History Farm.Sound6 Farm.ProRata Farm.SoundTrace.
+From Irismod Require Import Farm.Model Farm.Check Farm.Proofs Farm.Rewards Farm.Refund Farm.Budget Farm.Sound Farm.History Farm.Sound6 Farm.ProRata Farm.SoundTrace Farm.FairFold Farm.FairModel.
 
 (** RELEASE.  Every successful updatePool (each of stake, unstake, harvest, adjust, destroy and the
     end blocker goes through it), at any height, on any pool and ledger: the reward released for a
@@ -222,17 +222,25 @@ Theorem c06_checker_predicate_holds_on_the_model :
 Proof. intros s st oc0 rw0 R. exact (model_passes_c06 s st oc0 rw0 (reachable_inv _ R)). Qed.
 Print Assumptions c06_checker_predicate_holds_on_the_model.
 
-(** MODEL PASSES CHECK for C06: on the trace the model itself produces for any history, [check_case_C06] reports no
-    divergence and none of the clauses 10-17; the only other possible answer is clause 18 (the fair-share fold in exact
-    rationals), whose content is proved separately in units of 10^-18 ([payout_close_to_fair_share_on_histories]). *)
+(** MODEL PASSES CHECK for C06: on the trace the model itself produces for any history, [check_case_C06] answers
+    exactly (-1, -1, 0): no divergence, none of the clauses 10-17, and the exact-rational fair-share fold of clause 18
+    ([fair_step] / [fair_close] / [fair_ok] over [Q]) is satisfied.  ([FairFold.v]: what the checker's nested folds do
+    to one key; [FairModel.v]: every key of the checker's map follows the pro-rata abstraction of that farmer and rule
+    ([ProRata.sim_step]) with [fair / 10^18 <= sh_fair <= (fair + eps) / 10^18], and the bounds of [finv] give [share_ok].) *)
 Theorem model_passes_check_C06 :
   forall (h0 : Z) (bl : list (acct * list Z)) (steps : list step),
     genesis_ok (ledger_of bl) h0 -> bals_of (ledger_of bl) = bl ->
     Forall valid_step steps -> Forall actor_step steps ->
-    let c := model_case h0 bl steps [] in
-    check_case_C06 c = (-1, -1, 0) \/ check_case_C06 c = (-1, n_steps c, 18).
-Proof. exact model_passes_check_C06_lemma. Qed.
+    check_case_C06 (model_case h0 bl steps []) = (-1, -1, 0).
+Proof. exact model_passes_check_C06_exact_lemma. Qed.
 Print Assumptions model_passes_check_C06.
+
+(** the fold of clause 18 alone, for any state of the checker's loop that satisfies the per-key invariant *)
+Theorem fair_share_fold_holds_on_the_model :
+  forall (s : state) (last : obs) (m : shares),
+    inv s -> (forall k, key_ok s m k) -> nd m -> o_pools last = pools s -> fair_ok (fair_close last m) = true.
+Proof. exact fair_ok_model. Qed.
+Print Assumptions fair_share_fold_holds_on_the_model.
 
 (** The duration AdjustPool computes (availableHeight) is never negative (imported by the queues group). *)
 Theorem adjust_duration_is_nonnegative :
